@@ -207,6 +207,19 @@ def check_class(prog, cd, rep, cname, amap, items, c):
                 rep.ok("auto-channel-fresh", f"{fq}: automatic channel is max(map)+1 (0 when empty) - provably not in use", nontrivial=True)
             else:
                 rep.fail("auto-channel-fresh", mod, fq, st, f"automatic channel `{vn}` = {vals} is not provably unused (expected max(map)+1 / 0 when empty, or a membership test before the append)")
+    # explicit channel honoured: the automatic branch is selected by `channel is None` only (0 is a valid explicit channel)
+    chan_params = [p for p in f.params if any(isinstance(x, ast.Name) and x.id == p for st in walk_no_nested(f.node)
+                                              if isinstance(st, ast.Expr) and isinstance(st.value, ast.Call) and isinstance(st.value.func, ast.Attribute)
+                                              and st.value.func.attr == "append" and is_self_attr(st.value.func.value, amap, sn) for x in st.value.args)]
+    for cp in chan_params:
+        for st in walk_no_nested(f.node):
+            if isinstance(st, ast.If) and any(isinstance(x, ast.Name) and x.id == cp for x in ast.walk(st.test)) and not (st.body and isinstance(st.body[-1], ast.Raise)):
+                t = st.test
+                is_none = isinstance(t, ast.Compare) and len(t.ops) == 1 and isinstance(t.ops[0], (ast.Is, ast.IsNot, ast.Eq, ast.NotEq)) and norm(t.left) == cp and norm(t.comparators[0]) == "None"
+                if is_none:
+                    rep.ok("explicit-channel-honoured", f"{fq}: the automatic channel is chosen only when `{cp} is None`")
+                else:
+                    rep.fail("explicit-channel-honoured", mod, fq, st, f"`{norm(t)}` decides between automatic and explicit channel: an explicit channel 0 (falsy) is silently replaced by an automatic one")
     # 5 container-kind: decoder installs
     u = cd.units.get(cname)
     if u is None:
@@ -277,6 +290,7 @@ def check_class(prog, cd, rep, cname, amap, items, c):
 
 def run(prog, rep):
     cd = Codecs(prog)
+    cd.flag_errors(rep)
     rep.explanation = (
         "for the three channel-mapped classes: parallel-init (both lists empty or from the same argument), paired-mutation (path "
         "enumeration on each method's CFG: every mutation of one list is matched by the same operation at the same position on the "
